@@ -23,6 +23,7 @@ import IrVerif.Lemmas.ExtLife
 import IrVerif.Lemmas.Strided
 import IrVerif.Lemmas.StridedBounds
 import IrVerif.Lemmas.PyTensor
+import IrVerif.Lemmas.F8Round
 import IrVerif.Model.StrTensor
 
 namespace IrVerif.Pack
@@ -1063,6 +1064,70 @@ theorem C04_pytensor_f8_halfulp (mb : Nat) (qmin : Int) (m : Nat) (e : Int) :
       refine ⟨by omega, by omega, ?_, by omega⟩
       intro h2
       exact hc'.2 (by omega)
+
+/-- fraction bits of the narrow float types -/
+def F8.mbits : F8 → Nat
+  | .e4m3fn => 3 | .e4m3fnuz => 3 | .e5m2 => 2 | .e5m2fnuz => 2 | .e8m0 => 0 | .e2m1 => 1
+
+/-- exponent of the smallest subnormal (`1 - bias - mbits`; for E8M0 the exponent of the field `E = 1`) -/
+def F8.qmin : F8 → Int
+  | .e4m3fn => -9 | .e4m3fnuz => -10 | .e5m2 => -16 | .e5m2fnuz => -17 | .e8m0 => -126 | .e2m1 => -1
+
+/-- the largest magnitude pattern that is a finite value the conversion does not reach by
+    overflow: below the NaN `0x7F` of E4M3FN, below the infinity `0x7C` of E5M2, any magnitude of
+    the FNUZ types, below the NaN `0xFF` of E8M0, and up to 6.0 (`7`, where saturation starts to be
+    the identity) for E2M1 -/
+def F8.maxFinite : F8 → Nat
+  | .e4m3fn => 0x7E | .e4m3fnuz => 0x7F | .e5m2 => 0x7B | .e5m2fnuz => 0x7F | .e8m0 => 0xFE | .e2m1 => 7
+
+/-- the result for an input that rounds to zero: the signed zero, the single zero of the FNUZ
+    types, and `2^-127` (pattern `0x00`) for E8M0, which has no zero -/
+def F8.zeroOf (k : F8) (neg : Bool) : F64 :=
+  match k with
+  | .e4m3fnuz => .zero false
+  | .e5m2fnuz => .zero false
+  | .e8m0 => .fin false 1 (-127)
+  | _ => .zero neg
+
+/-- **C04_pytensor_f8_decode_encode**: the NORMALISATION half of the rounding specification, for
+    ALL inputs (no table).  For every one of the six formats and every finite input
+    `(-1)^neg * m * 2^e` (`m > 0`, as `decode64` / `decode32` produce: `decode64_fin_pos`) that the
+    conversion does not send to NaN / infinity / saturation (`roundU <= maxFinite`: decidable; E8M0
+    has no sign, a negative input is NaN there), DECODING the pattern `encF8` produces (`decF8`:
+    the value specification of the ONNX formats) gives a finite value `(-1)^neg * m' * 2^e'` with
+    `e' >= q` and `m' * 2^(e' - q) = r`, i.e. EXACTLY `r * 2^q`, where `q = roundQ` and `r = roundR`
+    are the exponent and significand of `C04_pytensor_f8_halfulp` -- so encode followed by decode IS
+    the nearest representable value, ties to even; when `r = 0` the result is the zero of the format
+    (sign kept; the one zero of the FNUZ types; `2^-127` for E8M0, which has no zero: observation
+    in the comment of `encF8`).  The proof shows that `bitLen` is the position of the leading bit
+    (`bitLen_spec`), hence `r` is normalised (`2^mb <= r <= 2^(mb+1)`, `roundR_normal`; the upper
+    end is the rounding carry, decoded as `2^mb * 2^(q+1)`) or subnormal (`r <= 2^mb` at `q = qmin`,
+    `roundR_subnormal`), and reads the fields of `sign + (q - qmin) * 2^mb + r` back. -/
+theorem C04_pytensor_f8_decode_encode (k : F8) (neg : Bool) (m : Nat) (e : Int) (hm : 0 < m)
+    (hfin : roundU k.mbits k.qmin m e ≤ k.maxFinite) (hneg : k = .e8m0 → neg = false) :
+    (roundR k.mbits k.qmin m e = 0 → decF8 k (encF8 k (.fin neg m e)) = k.zeroOf neg) ∧
+    (roundR k.mbits k.qmin m e ≠ 0 →
+      ∃ m' e', decF8 k (encF8 k (.fin neg m e)) = .fin neg m' e' ∧
+        roundQ k.mbits k.qmin m e ≤ e' ∧
+        m' * 2 ^ (e' - roundQ k.mbits k.qmin m e).toNat = roundR k.mbits k.qmin m e) := by
+  cases k
+  case e4m3fn => exact dec_enc_e4m3fn neg m e hm hfin
+  case e4m3fnuz => exact dec_enc_e4m3fnuz neg m e hm hfin
+  case e5m2 => exact dec_enc_e5m2 neg m e hm hfin
+  case e5m2fnuz => exact dec_enc_e5m2fnuz neg m e hm hfin
+  case e2m1 => exact dec_enc_e2m1 neg m e hm hfin
+  case e8m0 =>
+    have := hneg rfl
+    subst this
+    exact dec_enc_e8m0 m e hm hfin
+
+-- 1.0 -> 0x38 -> 8 * 2^-3; 17 rounds to 16 = 8 * 2^1 (r = 8 at q = 1); 31 carries: r = 16 at q = 1, decoded as 8 * 2^2
+example : decF8 .e4m3fn (encF8 .e4m3fn (.fin false 1 0)) = .fin false 8 (-3) := by rfl
+example : roundQ 3 (-9) 31 0 = 1 ∧ roundR 3 (-9) 31 0 = 16 ∧ decF8 .e4m3fn (encF8 .e4m3fn (.fin false 31 0)) = .fin false 8 2 :=
+  ⟨by decide, by decide, by rfl⟩
+-- the hypotheses are satisfiable in every format, and fail exactly on overflow
+example : ∀ k : F8, roundU k.mbits k.qmin 1 0 ≤ k.maxFinite := by intro k; cases k <;> decide
+example : ¬ roundU F8.e4m3fn.mbits F8.e4m3fn.qmin 465 0 ≤ F8.e4m3fn.maxFinite := by decide
 
 /-- **C04_pytensor_f8_agree**: `ir.tensor(value, dtype=T)` for a narrow float type `T` and ANY
     homogeneous nesting of bool / int64 / float scalars never raises and never leaves the model:
